@@ -220,15 +220,37 @@ func (c *Ctx) c12Scripts() error {
 		sb.WriteString("func run() {\na := &S{}\nb := &S{}\nc := a\n_ = c\n")
 		// mirrors: instances a (aliased by c) and b
 		inst := map[string][]int64{"a": make([]int64, nf), "b": make([]int64, nf)}
+		bind := map[string]string{"a": "a", "b": "b", "c": "a"} // variable -> instance (named after its first variable)
 		var want []string
 		nops := 20 + r.Intn(60)
 		for k := 0; k < nops; k++ {
 			v := Pick(r, []string{"a", "b", "c"})
-			real := v
-			if v == "c" {
-				real = "a"
-			}
-			switch op := r.Intn(10); {
+			real := bind[v]
+			switch op := r.Intn(12); {
+			case op == 10 && nf > 0: // a tuple assignment that stores a field and rebinds the variable it is reached through:
+				// the operands of every target are evaluated before any store, so the field lands in the old instance
+				f := r.Intn(nf)
+				val := int64(r.Intn(200))
+				o := Pick(r, []string{"a", "b", "c"})
+				if r.Bool() {
+					fmt.Fprintf(&sb, "%s.F%d, %s = %d, %s\n", v, f, v, val, o)
+				} else {
+					fmt.Fprintf(&sb, "%s, %s.F%d = %s, %d\n", v, v, f, o, val)
+				}
+				inst[real][f] = val
+				bind[v] = bind[o]
+				c.Rep.Count("struct-script-tuple-field-and-rebind")
+				continue
+			case op == 11 && nf > 0: // two field targets, the values cross over
+				f := r.Intn(nf)
+				o := Pick(r, []string{"a", "b", "c"})
+				fmt.Fprintf(&sb, "%s.F%d, %s.F%d = %s.F%d, %s.F%d\n", v, f, o, f, o, f, v, f)
+				x, y := inst[real][f], inst[bind[o]][f]
+				inst[real][f] = y
+				inst[bind[o]][f] = x
+				continue
+			case op >= 10:
+				continue
 			case op < 4 && nf > 0:
 				f := r.Intn(nf)
 				val := int64(r.Intn(300))
